@@ -381,7 +381,8 @@ var corePayloads = []string{
 }
 
 // candidates(v0) = the payloads alone and combined with the fixture's own (valid) value
-func candidates(v0 string, payloads []string, thorough bool) []struct{ val, placement string; pid int } {
+// lite: only the placements alone / append / prepend / after each token (secondary contexts in the quick tier)
+func candidates(v0 string, payloads []string, thorough, lite bool) []struct{ val, placement string; pid int } {
 	type c = struct {
 		val, placement string
 		pid            int
@@ -404,6 +405,9 @@ func candidates(v0 string, payloads []string, thorough bool) []struct{ val, plac
 				if (v0[k] == ' ' || v0[k] == ',' || v0[k] == ';' || v0[k] == '=' || v0[k] == ':') && v0[k-1] != ' ' {
 					add(v0[:k]+p+v0[k:], "token", i)
 				}
+			}
+			if lite {
+				continue
 			}
 			add(v0[:len(v0)-1]+p, "replace-last", i)
 			add(p+v0[1:], "replace-first", i)
@@ -913,6 +917,11 @@ func runJob(e *env, fi int, fx Fixture, plus bool, rng *vh.Rng, thorough bool, b
 				sum.Fields[l.Field] = st
 			}
 			payloads := corePayloads
+			lite := false
+			if thorough && w.Secondary {
+				// a fixture that repeats fields under other context selectors: the single bytes and classic combinations
+				payloads = corePayloads[:48]
+			}
 			if !thorough {
 				// quick: the first instance of a field in a fixture gets the first 40 payloads (single bytes and the
 				// classic combinations) plus a seed-dependent fifth of the rest; further instances of the same field
@@ -934,6 +943,7 @@ func runJob(e *env, fi int, fx Fixture, plus bool, rng *vh.Rng, thorough bool, b
 					// the same field under context selectors not seen before (another path kind, location kind,
 					// upstream type, path-regex value, ...): another validator or rendering site may apply
 					payloads = contextPayloads
+					lite = true
 				default:
 					payloads = nil
 					for k := 0; k < 5; k++ {
@@ -950,7 +960,7 @@ func runJob(e *env, fi int, fx Fixture, plus bool, rng *vh.Rng, thorough bool, b
 				sum.Contexts[lctx]++
 			}
 			hcache := map[string]*Render{}
-			for _, cd := range candidates(l.Value, payloads, thorough) {
+			for _, cd := range candidates(l.Value, payloads, thorough, lite) {
 				st.Candidates++
 				c, class := e.judge(w, &base, oi, l, cd.val, hcache)
 				c.Fixture, c.Placement, c.PayloadID, c.Ctx = fx.Name, cd.placement, cd.pid, lctx
@@ -1259,6 +1269,9 @@ func main() {
 	for _, r := range regexRecords() {
 		out.Emit(r)
 	}
+	for _, r := range selectorRecords(envs[false]) {
+		out.Emit(r)
+	}
 	// a bounded, seed-dependent sample of the membership verdicts (all negative ones, up to 1200 positive ones)
 	var keys []string
 	for k := range classPool {
@@ -1499,6 +1512,7 @@ func replay(a vh.Args, out *vh.Writer, envs map[bool]*env) {
 		}
 		c2, class := e.judge(w, &base, c.Obj, *leaf, string(val), map[string]*Render{})
 		c2.ID, c2.Fixture, c2.BaseID, c2.Placement, c2.PayloadID = c.ID, c.Fixture, bid, c.Placement, c.PayloadID
+		c2.Ctx = leafContext(w.Objs[c.Obj], *leaf)
 		if class != "differ" && c2.Obs.Error == "" {
 			c2.Obs.Error = ""
 			c2.Obs.Reject = strings.TrimSpace(c2.Obs.Reject + " [replay class: " + class + "]")
